@@ -107,15 +107,21 @@ def amp_cases(rep, tier):
                 if sch == "gear":
                     solver.step(f, dt)
                     obs.append(float(f.data[0][0]))
+                zz = Fraction(z) * Fraction(dt)
+                g_imp = 1 / (1 - zz)
+                g_cn = (1 + zz / 2) / (1 - zz / 2)
+                g_gear2 = (4 * g_cn - 1) / (3 - 2 * zz)
                 for k, o in enumerate(obs):
-                    if not np.isfinite(o):
-                        amp, err = Fraction(0), core.ULP_CAP
-                    else:
-                        amp = Fraction(o).limit_denominator(20000)
-                        err = core.ulps(o, amp, max(abs(o), 1e-300))
                     scheme = "implicit" if sch == "implicit" else ("cn" if (sch == "cn" or k == 0) else "gear2")
-                    recs.append(dict(kind="amp", scheme=scheme, z=core.rat(z), dt=core.rat(dt), amp=core.rat(amp),
-                                     amperr=err, cls=cn))
+                    # the amplification factor the scheme defines, as an exact rational (TLC recomputes it from z and dt and
+                    # requires equality: the definition is cross-checked) and the observed float's distance to it
+                    exp_ = {"implicit": g_imp, "cn": g_cn, "gear2": g_gear2}[scheme]
+                    if not core.fits(exp_):
+                        continue
+                    err = core.ulps(o, exp_, max(abs(float(exp_)), 1e-3)) if np.isfinite(o) else core.ULP_CAP
+                    grow = 1 if (np.isfinite(o) and z <= 0 and abs(o) > 1.0 + 1e-9) else 0
+                    recs.append(dict(kind="amp", scheme=scheme, z=core.rat(z), dt=core.rat(dt), amp=core.rat(exp_),
+                                     amperr=err, grow=grow, cls=cn, observed=repr(o)))
                     rep.nontrivial.add(("amp", cn, z, dt, k))
     return recs
 
